@@ -425,6 +425,17 @@ impl Sub for Builders {
                 fs.user.as_ref().map(|m| String::from_utf8_lossy(m).to_string()),
             )
         };
+        // a matrix.def header announcing billions of cells makes the builder allocate gigabytes
+        // (memory exhaustion aborts the process; that is neither Ok, Err nor a panic and is
+        // reported as inconclusive by policy), so such headers are kept out of the search
+        if let Some(m) = &fs.matrix {
+            let head = String::from_utf8_lossy(m.split(|&b| b == b'\n').next().unwrap_or(&[])).to_string();
+            let dims: Vec<u64> = head.split(' ').filter_map(|t| t.parse::<u64>().ok()).collect();
+            if dims.len() == 2 && dims[0].saturating_mul(dims[1]) > 16_000_000 {
+                ctx.count("skipped_matrix_header_over_16M_cells", 1);
+                return Ok(());
+            }
+        }
         ctx.eval();
         // (1) totality
         let built = guard(|| match (&fs.matrix, &fs.bigram) {
